@@ -191,6 +191,20 @@ def gen_scenario(seed: int, profile: Optional[dict] = None) -> dict:
             # drop a connection of the cycle
             victim = next(c for c in conns if c["src"] in cyc and c["dst"] in cyc)
             conns.remove(victim)
+    # async_requests connections get an agent that really writes (sparse set_data with unique values)
+    for c in conns:
+        if c.get("async"):
+            b = next(s_ for s_ in sims if s_["sid"] == c["dst"])
+            ag = b["beh"].setdefault("agent", {"targets": [], "p_set": rng.choice([0.4, 0.8]), "get": [], "p_get": 0.0})
+            tgt = [f"{c['dst']}.{c['de']}", f"{c['src']}.{c['se']}", "sd"]
+            if tgt not in ag["targets"]:
+                ag["targets"].append(tgt)
+    if all(not s_["path"] for s_ in sims):
+        # None is a legal value of a persistent attribute, but not a unique one: only in scenarios without
+        # groups, where no classifier has to identify the write an observed value came from
+        for s_ in sims:
+            if rng.random() < prof.get("p_none_values", 0.3):
+                s_["beh"]["p_none"] = 0.15
     # future output times only where all connected outputs are non-persistent
     for s in sims:
         outs_conn = [(c["se"], c["sa"]) for c in conns if c["src"] == s["sid"]]
